@@ -72,6 +72,11 @@ def draw_fit(seed, i, fixtures, tier):
         like['fn_set'] = fx['runname']
     opts = dict(test_all=dict(Niter_params=rng.choice([[2], [3], [2, 1]]), Nconv_params=[rng.choice([1, 2])],
                               log_opt=rng.random() < 0.3))
+    if rng.random() < 0.1:
+        # the value the docstrings call the default: Nconv <= 0 for parameter-free functions, so optimise_fun raises
+        # inside the time-limited block and the row becomes nan
+        opts['test_all']['Nconv_params'] = [-5, 20]
+        opts['test_all']['Niter_params'] = [40, 60]
     have = {(f['runname'], f['compl']) for f in fixtures}
     if fx.get('lib') and all((fx['runname'], c) in have for c in range(1, fx['compl'])) and rng.random() < 0.3:
         # rank 0 writes previous_eqns_<n>.txt into the library directory, every rank reads it while fitting
